@@ -34,6 +34,7 @@ import (
 const none = "-"
 
 var watchdog = 30 * time.Second
+var wakeWatchdog = 15 * time.Second
 
 // ---- the model's JSON ------------------------------------------------------------------------
 
@@ -429,11 +430,12 @@ func replayAtomicPath(rep *vh.Report, mo *monitor, ttl, cleanup int, slots []str
 		case "next_wake":
 			// the model says the captured channel is closed: the goroutine inside next() must have woken up
 			// and be about to call tryGet again
-			r := s.waitParked(a.Th, map[string]bool{"tryGet.enter": true}, watchdog)
+			r := s.waitParked(a.Th, map[string]bool{"tryGet.enter": true}, wakeWatchdog)
 			if r != "tryGet.enter" {
 				if pre.Ac > 0 {
+					notWoken.Add(1)
 					rep.Violate("C17/pool/waiter-not-woken", fmt.Sprintf("%s: a caller blocked in next() with a live context was not woken within %s although activeCount=%d (harness quiescent)",
-						mo.ctx, watchdog, pre.Ac), replayObj)
+						mo.ctx, wakeWatchdog, pre.Ac), replayObj)
 				}
 				return fail(i, "next_wake: waiter not woken (%s)", r)
 			}
